@@ -128,6 +128,8 @@ pub enum Case {
     /// 128-bit integers as (high, low) halves: the term format of this library may refuse them, but must not alter them
     I128(i64, u64),
     U128(u64, u64),
+    /// options whose payload is itself written as a bare atom (`nil`, a unit struct's name, `true`/`false`): only `undefined` is `None`
+    OptAtomLike(Vec<Option<()>>, Option<UnitStruct>, Option<bool>, Option<()>),
 }
 
 /// `same`: equality that also distinguishes float bit patterns (via the Debug rendering,
@@ -207,6 +209,7 @@ pub fn oracle(c: &Case) -> Verdict {
         Case::OptStr(v) => trip(v, true),
         Case::OptVec(v) => trip(v, true),
         Case::Unit(v) => trip(v, true),
+        Case::OptAtomLike(a, b, c, d) => trip(&(a.clone(), b.clone(), *c, *d), true).and_then(|()| trip(d, true)).and_then(|()| trip(a, true)),
         Case::Tup1(v) => trip(v, true),
         Case::Tup2(v) => trip(v, true),
         Case::Tup4(v) => trip(v, true),
@@ -264,6 +267,7 @@ pub fn oracle(c: &Case) -> Verdict {
                     c,
                     Case::Named(_) | Case::Deep(_) | Case::Shape(_) | Case::Elixir(_) | Case::ElixirWrap(..) | Case::TupleStruct(_) | Case::Tup2(_) | Case::Tup4(_)
                 )
+                || matches!(c, Case::OptAtomLike(a, b, c2, d) if a.iter().any(|x| x.is_some()) || b.is_some() || c2.is_some() || d.is_some())
                 || matches!(c, Case::VecU8(v) if !v.is_empty())
                 || matches!(c, Case::VecI64(v) if !v.is_empty())
                 || matches!(c, Case::VecStr(v) if !v.is_empty())
@@ -279,6 +283,7 @@ pub fn oracle(c: &Case) -> Verdict {
                 Case::Bool(_) | Case::Unit(_) | Case::UnitStruct(_) => "unit-like",
                 Case::Char(_) | Case::Str(_) => "text",
                 Case::OptI64(_) | Case::OptStr(_) | Case::OptVec(_) => "option",
+                Case::OptAtomLike(..) => "option-of-atom-like-payload",
                 Case::Tup1(_) | Case::Tup2(_) | Case::Tup4(_) | Case::TupleStruct(_) | Case::Newtype(_) => "tuple-like",
                 Case::VecU8(_) | Case::VecI64(_) | Case::VecStr(_) | Case::VecVec(_) | Case::VecOpt(_) => "seq",
                 Case::HmStr(_) | Case::HmI64(_) | Case::HmU32(_) | Case::BmBool(_) | Case::BmChar(_) => "map",
@@ -428,6 +433,8 @@ fn strategy() -> impl Strategy<Value = Case> {
             prop::option::of(s_string()).prop_map(Case::OptStr),
             prop::option::of(prop::collection::vec(s_u32(), 0..3)).prop_map(Case::OptVec),
             Just(Case::Unit(())),
+            (prop::collection::vec(prop::option::of(Just(())), 0..4), prop::option::of(Just(UnitStruct)), prop::option::of(any::<bool>()), prop::option::of(Just(())))
+                .prop_map(|(a, b, c, d)| Case::OptAtomLike(a, b, c, d)),
             s_i64().prop_map(|v| Case::Tup1((v,))),
             (s_u64(), s_string()).prop_map(Case::Tup2),
             (any::<i8>(), s_char(), s_f64(), any::<bool>()).prop_map(Case::Tup4),
